@@ -749,9 +749,10 @@ class Plan:
             out = []
             for fill in (0, 1, 0xFF):
                 reset_state()
+                body = bytes(self.make(Probe(fill), L, tag))
                 try:
                     with Meter(cap=STEP_CAP):
-                        m = Message.unpack(self.mtype, bytes(self.make(Probe(fill), L, tag)), neg)
+                        m = Message.unpack(self.mtype, body, neg)
                         what = type(m).__name__
                         if isinstance(m, Update):
                             d = m.data
